@@ -189,21 +189,23 @@ theorem mden_odd (s : Scope) (ints : String → Int) (cls : String → AssetClas
       mden_odd s ints cls b (fun x hx => ht x (by simp [MExp.toks, hx])) hf.2.1 k hk]
 
 /-- An amount of the language never denotes anything of a class no ledger value has, when the UTxOs do not. -/
-theorem den_odd (s : Scope) (σ : ArgMap) (ints : String → Int) (cls : String → AssetClass) (ctx : Ctx) (fee : Int)
+theorem den_odd (s : Scope) (σ : ArgMap) (ints : String → Int) (cls : String → AssetClass) (fee : Int)
     (ι : InputMap) (assigned : String → List UtxoMeta)
     (hU : ∀ x k, Odd k → TExp.utxoTotal (assigned x) k = 0) :
-    ∀ (c : CExp), c.OK s σ ints cls ctx fee ι assigned → ∀ k, Odd k → c.den ints cls fee assigned k = 0
-  | .pure e, h, k, hk => by simpa [CExp.den] using mden_odd s ints cls e h.2.1 h.2.2 k hk
-  | .fees, _, k, hk => by
+    ∀ (c : CExp) (ctx : Ctx), c.OK s σ ints cls fee ι assigned ctx → ∀ k, Odd k → c.den ints cls fee assigned k = 0
+  | .pure e, _, h, k, hk => by simpa [CExp.den] using mden_odd s ints cls e h.2.1 h.2.2 k hk
+  | .fees, _, _, k, hk => by
     have : k ≠ .naked := by rcases hk with ⟨_, rfl⟩ | ⟨_, rfl⟩ <;> simp
     simp [CExp.den, this]
-  | .input x, _, k, hk => by simpa [CExp.den] using hU x k hk
-  | .add a b, h, k, hk => by
-    simp [CExp.den, den_odd s σ ints cls ctx fee ι assigned hU a h.1 k hk,
-      den_odd s σ ints cls ctx fee ι assigned hU b h.2.1 k hk]
-  | .sub a b, h, k, hk => by
-    simp [CExp.den, den_odd s σ ints cls ctx fee ι assigned hU a h.1 k hk,
-      den_odd s σ ints cls ctx fee ι assigned hU b h.2.1 k hk]
+  | .input x, _, _, k, hk => by simpa [CExp.den] using hU x k hk
+  | .add a b, ctx, h, k, hk => by
+    simp [CExp.den, den_odd s σ ints cls fee ι assigned hU a ctx h.1 k hk,
+      den_odd s σ ints cls fee ι assigned hU b ctx h.2.1 k hk]
+  | .sub a b, ctx, h, k, hk => by
+    simp [CExp.den, den_odd s σ ints cls fee ι assigned hU a ctx h.1 k hk,
+      den_odd s σ ints cls fee ι assigned hU b ctx h.2.1 k hk]
+  | .loc _ c, ctx, h, k, hk => by
+    simpa [CExp.den] using den_odd s σ ints cls fee ι assigned hU c ctx.down h.2.2 k hk
 
 /-- **C02 (from the source to the compiled output).**  An amount written with asset constructors, `fees`, input
 names, `+` and `-`, that denotes a ledger value (nothing negative, lovelace within 64 bits): lowering succeeds,
@@ -211,7 +213,7 @@ reduction after the three stages succeeds, and *any* output block carrying the r
 exactly, of lovelace and of every token, what integer arithmetic gives for the expression as written. -/
 theorem C02_source_to_output (s : Scope) (σ : ArgMap) (ints : String → Int) (cls : String → AssetClass) (ctx : Ctx)
     (hl : ctx.lvl ≠ 0) (ha : ctx.asset = true) (hA : AdaBuiltin s) (fee : Int) (ι : InputMap)
-    (assigned : String → List UtxoMeta) (c : CExp) (h : c.OK s σ ints cls ctx fee ι assigned)
+    (assigned : String → List UtxoMeta) (c : CExp) (h : c.OK s σ ints cls fee ι assigned ctx)
     (hU : ∀ x k, Odd k → TExp.utxoTotal (assigned x) k = 0)
     (hnn : ∀ k, 0 ≤ c.den ints cls fee assigned k) (hmax : c.den ints cls fee assigned .naked ≤ u64Max) :
     ∃ N, ∀ n, N ≤ n → ∃ t, lowerE s n ctx c.toL = .ok t ∧
@@ -225,7 +227,7 @@ theorem C02_source_to_output (s : Scope) (σ : ArgMap) (ints : String → Int) (
   refine ⟨t, hlow, fun m hm => ?_⟩
   obtain ⟨r, hr, hd, hform⟩ := hred m hm
   refine ⟨r, hr, fun env o ao ho hcomp => ?_⟩
-  have hodd := den_odd s σ ints cls ctx fee ι assigned hU c h
+  have hodd := den_odd s σ ints cls fee ι assigned hU c ctx h
   obtain ⟨cs, rfl, hrange, hlov, hcl⟩ := compile_view hd hform (fun nm => hodd _ (Or.inl ⟨nm, rfl⟩))
     (fun nb => hodd _ (Or.inr ⟨nb, rfl⟩)) hnn hmax
   obtain ⟨e1, e2, _, _⟩ := C02_output_block_exact hcomp (by rw [ho]; rfl) hrange
